@@ -338,7 +338,9 @@ def run(ctx):
                     U = guarded("pulse.hardware", hw + ":evolve", lambda: np.asarray(qp.matrix(qp.evolve(H)(params, t=[0.0, T], atol=1e-11, rtol=1e-11), wire_order=wires)), desc)
                     if U is not None:
                         Uref = ref_propagator(Href, 0.0, T, 2 ** n)
-                        compare("pulse.hardware", hw + ":evolve", U, Uref, 1e-6, {**desc, "T": T})
+                        # integration error of both ODE solvers grows with ||H||*T (Rydberg interaction terms can be large): scale the bound by it
+                        hscale = max(1.0, float(np.linalg.norm(Href(0.5 * T), 2)) * T)
+                        compare("pulse.hardware", hw + ":evolve", U, Uref, 1e-6 * hscale, {**desc, "T": T, "norm_H_times_T": hscale})
             continue
 
         # ======================================================================================= generic parametrized Hamiltonians
